@@ -8,7 +8,7 @@ from harness import htaio
 from harness.props import common as C
 from harness.props.c02 import wf as wf_c02
 
-N_CASES = {"quick": 120, "thorough": 2000}
+N_CASES = {"quick": 200, "thorough": 2000}
 SHRINK = True
 COLS = ["parent", "depth", "height", "num_kernels", "kernel_dur_sum", "kernel_span", "first_kernel_start", "last_kernel_end"]
 ASSUMPTIONS = [
